@@ -150,8 +150,9 @@ def loops_chunk(cases, extra):
 
 
 def classify_missed(prog, rd):
-    """Canonical cell of a missed read: 'assigned-only-inside-for-body' when every assignment of the variable
-    before the read is enclosed by some `for` loop (whose body TIFA treats as always executed), else 'other'."""
+    """Canonical cell of a missed read: 'assigned-inside-for-body' when some assignment of the variable before the
+    read is enclosed by a `for` loop (whose body TIFA treats as always executed, which makes the variable look
+    definitely assigned afterwards), else 'other'."""
     v = rd["v"]
     stack = []
     inside_for = []
@@ -164,6 +165,6 @@ def classify_missed(prog, rd):
             stack.pop()
         elif tok["t"] == "A" and tok["v"] == v and k < rd["tok"]:
             inside_for.append(any(s in ("forE", "forU", "forN") for s in stack))
-    if inside_for and all(inside_for):
-        return "assigned-only-inside-for-body"
+    if any(inside_for):
+        return "assigned-inside-for-body"
     return "other"
